@@ -305,7 +305,7 @@ theorem step_roles {s : St} {o : Op} (h : Roles s) : Roles (step s o).1 := by
   · exact h
 
 theorem init_roles (p : Params) (hp : 0 < p.noticePeriod) : Roles (init p) := by
-  refine ⟨⟨⟨List.Pairwise.nil, List.Pairwise.nil⟩, ?_, ?_, ?_, ?_, ?_, ?_, hp⟩, ?_⟩
+  refine ⟨⟨⟨List.Pairwise.nil, List.Pairwise.nil, List.Pairwise.nil⟩, ?_, ?_, ?_, ?_, ?_, ?_, hp⟩, ?_⟩
   · intro r hr; cases hr
   · intro r hr; cases hr
   · intro r hr; cases hr
